@@ -93,7 +93,7 @@ Definition sin_env (ex eg ie : bool) (fail : option (nat * bool)) : denv :=
             if String.eqb b "nil" then
               if String.eqb a "err" then Some (Some (negb (failing st 0 ["readUntilF(ctx, input)"])))
               else if String.eqb a "readErr"
-                   then Some (Some (negb (failing st 1 ["c.ReadUntilPrompt(ctx)"; "c.ReadUntilAnyPrompt(ctx, prompts)"])))
+                   then Some (Some (negb (failing st 1 ["c.ReadUntilPrompt(ctx) -> nb, readErr"; "c.ReadUntilAnyPrompt(ctx, prompts) -> nb, readErr"])))
               else if String.eqb a "r.err"
                    then Some (Some (negb (existsb (fun kv => String.eqb (fst kv) "!call"
                                                             && (String.eqb (snd kv) "cr <- &result{b: b, err: err}"
@@ -122,8 +122,8 @@ Definition sin_acts (st : store) : option (list sact) :=
            else if String.eqb k "err" && String.eqb v "c.WriteReturn()" then Some (l ++ [SReturn])
            else if String.eqb k "!call" && String.eqb v "readUntilF(ctx, input)"
                 then match exact with Some e => Some (l ++ [SEcho e]) | None => None end
-           else if String.eqb k "!call" && String.eqb v "c.ReadUntilPrompt(ctx)" then Some (l ++ [SPrompt false])
-           else if String.eqb k "!call" && String.eqb v "c.ReadUntilAnyPrompt(ctx, prompts)"
+           else if String.eqb k "!call" && String.eqb v "c.ReadUntilPrompt(ctx) -> nb, readErr" then Some (l ++ [SPrompt false])
+           else if String.eqb k "!call" && String.eqb v "c.ReadUntilAnyPrompt(ctx, prompts) -> nb, readErr"
                 then (if interim_built then Some (l ++ [SPrompt true]) else None)
            else if String.eqb k "!call" && String.eqb v "cr <- &result{ b: c.processOut(b, op.StripPrompt), err: nil, }"
                 then Some (l ++ [SResult])
